@@ -1331,4 +1331,276 @@ theorem pos_filter_lt_rev (k : Nat → Bool) (l : List Nat) (y z : Nat) (hy : k 
     omega
 
 
+
+/-! ### causal arrival: everything attaches directly; confluence -/
+
+theorem has_mono_append {t : T} {x : Nat} {c : Change} (h : t.has x = true) :
+    ({ t with att := t.att ++ [c] } : T).has x = true := by
+  rw [has_iff] at h ⊢
+  simp only [List.map_append, List.mem_append]; exact Or.inl h
+
+/-- with nothing unattached the cascade over the waiters does nothing -/
+theorem cascade_noop (f : Nat) (ws : List Nat) : ∀ (s : T), s.unatt = [] →
+    ws.foldl (fun t w =>
+      match t.unatt.find? (·.id == w) with
+      | none => t
+      | some n =>
+        match canAttach t n false with
+        | (true, _, _) => attach f t n
+        | (false, true, _) => { t with unatt := t.unatt.filter (·.id != n.id) }
+        | _ => t) s = s := by
+  induction ws with
+  | nil => intro s _; rfl
+  | cons w ws ih =>
+    intro s hs
+    simp only [List.foldl_cons, hs, List.find?_nil]
+    exact ih s hs
+
+/-- attaching with nothing unattached: `c` is appended, nothing else happens -/
+theorem attach_direct (f : Nat) (t : T) (c : Change) (hun : t.unatt = []) :
+    (attach (f + 1) t c).att = t.att ++ [c] ∧ (attach (f + 1) t c).unatt = [] ∧
+    (attach (f + 1) t c).root = t.root := by
+  have h := cascade_noop f ((t.wait.filter (·.1 == c.id)).map (·.2))
+    { t with att := t.att ++ [c], added := t.added ++ [c.id], unatt := t.unatt.filter (·.id != c.id) }
+    (by simp [hun])
+  unfold attach
+  simp only
+  refine ⟨(congrArg T.att h).trans rfl, (congrArg T.unatt h).trans (by simp [hun]), (congrArg T.root h).trans rfl⟩
+
+theorem canAttach_ok {t : T} {c : Change} (hp : ∀ p ∈ c.prevs, t.has p = true) (hs : t.has c.snap = true) :
+    canAttach t c true = (true, false, []) := by
+  unfold canAttach
+  have : c.prevs.filter (fun p => !t.has p) = [] := by
+    rw [List.filter_eq_nil_iff]; intro p hpm; simp [hp p hpm]
+  simp [this, hs]
+
+/-- one change whose previous ids and snapshot are attached, arriving at a tree with nothing unattached -/
+theorem addOne_direct (t : T) (c : Change) (hun : t.unatt = []) (hroot : t.root.isSome = true)
+    (hp : ∀ p ∈ c.prevs, t.has p = true) (hs : t.has c.snap = true) :
+    (addOne t c).att = t.att ++ [c] ∧ (addOne t c).unatt = [] ∧ (addOne t c).root = t.root := by
+  unfold addOne
+  split
+  · rename_i h; rw [h] at hroot; simp at hroot
+  · rw [canAttach_ok hp hs]
+    simp only
+    rw [hun]
+    exact attach_direct 0 t c hun
+
+/-- "held or earlier": every previous id and the snapshot of each element is attached in `t` or is the id of
+an earlier element -/
+def CausalFor (t : T) (l : List Change) : Prop :=
+  ∀ l1 c l2, l = l1 ++ c :: l2 →
+    (∀ p ∈ c.prevs, t.has p = true ∨ p ∈ l1.map (·.id)) ∧ (t.has c.snap = true ∨ c.snap ∈ l1.map (·.id))
+
+/-- **causal arrival**: a causally ordered run of changes is attached completely and directly (the wait list is
+never used); the result is the old attachment list followed by the changes not yet attached, in order -/
+theorem addAll_causal : ∀ (l : List Change) (t : T), t.unatt = [] → t.root.isSome = true → CausalFor t l →
+    (addAll t l).unatt = [] ∧ (addAll t l).root = t.root ∧
+    (∀ x, t.has x = true → (addAll t l).has x = true) ∧ (∀ c ∈ l, (addAll t l).has c.id = true) ∧
+    (∀ d ∈ (addAll t l).att, d ∈ t.att ∨ d ∈ l) ∧
+    ((t.att.map (·.id)).Nodup → ((addAll t l).att.map (·.id)).Nodup) := by
+  intro l
+  induction l with
+  | nil => intro t hun _ _; exact ⟨hun, rfl, fun _ h => h, by simp, fun d hd => Or.inl hd, fun h => h⟩
+  | cons c l ih =>
+    intro t hun hroot hc
+    unfold addAll
+    simp only [List.foldl_cons]
+    have hc0 := hc [] c l rfl
+    -- the state after `c`
+    have key : ∃ t', (if t.has c.id || t.hasUn c.id then t else addOne t c) = t' ∧ t'.unatt = [] ∧
+        t'.root = t.root ∧ (∀ x, t.has x = true → t'.has x = true) ∧ t'.has c.id = true ∧
+        (∀ d ∈ t'.att, d ∈ t.att ∨ d = c) ∧ ((t.att.map (·.id)).Nodup → (t'.att.map (·.id)).Nodup) := by
+      by_cases hh : t.has c.id = true
+      · exact ⟨t, by simp [hh], hun, rfl, fun _ h => h, hh, fun d hd => Or.inl hd, fun h => h⟩
+      · have hhf : t.has c.id = false := by simpa using hh
+        have hunf : t.hasUn c.id = false := by simp [T.hasUn, hun]
+        have hp : ∀ p ∈ c.prevs, t.has p = true := by
+          intro p hp; rcases hc0.1 p hp with h | h
+          · exact h
+          · simp at h
+        have hs : t.has c.snap = true := by
+          rcases hc0.2 with h | h
+          · exact h
+          · simp at h
+        obtain ⟨a1, a2, a3⟩ := addOne_direct t c hun hroot hp hs
+        refine ⟨addOne t c, by simp [hhf, hunf], a2, a3, ?_, ?_, ?_, ?_⟩
+        · intro x hx; rw [has_iff] at hx ⊢; rw [a1]; simp only [List.map_append, List.mem_append]; exact Or.inl hx
+        · rw [has_iff, a1]; simp
+        · intro d hd; rw [a1] at hd
+          rcases List.mem_append.mp hd with h | h
+          · exact Or.inl h
+          · right; simpa using h
+        · intro hnd
+          rw [a1, List.map_append, List.nodup_append]
+          refine ⟨hnd, by simp, ?_⟩
+          intro x hx y hy
+          have : y = c.id := by simpa using hy
+          subst this
+          intro e; subst e
+          rw [← has_iff] at hx; rw [hx] at hhf; exact Bool.noConfusion hhf
+    obtain ⟨t', ht', u', r', m', hc', sub', nd'⟩ := key
+    rw [ht']
+    have hcaus : CausalFor t' l := by
+      intro l1 d l2 hdec
+      have := hc (c :: l1) d l2 (by rw [hdec]; rfl)
+      constructor
+      · intro p hp
+        rcases this.1 p hp with h | h
+        · exact Or.inl (m' p h)
+        · rcases List.mem_cons.mp h with e | e
+          · left; rw [e]; exact hc'
+          · exact Or.inr e
+      · rcases this.2 with h | h
+        · exact Or.inl (m' _ h)
+        · rcases List.mem_cons.mp h with e | e
+          · left; rw [e]; exact hc'
+          · exact Or.inr e
+    obtain ⟨i1, i2, i3, i4, i5, i6⟩ := ih t' u' (by rw [r']; exact hroot) hcaus
+    refine ⟨i1, i2.trans r', fun x hx => i3 x (m' x hx), ?_, ?_, fun h => i6 (nd' h)⟩
+    · intro d hd
+      rcases List.mem_cons.mp hd with e | e
+      · rw [e]; exact i3 _ hc'
+      · exact i4 d e
+    · intro d hd
+      rcases i5 d hd with h | h
+      · rcases sub' d h with h' | h'
+        · exact Or.inl h'
+        · right; simp [h']
+      · exact Or.inr (List.mem_cons_of_mem _ h)
+
+
+theorem nodup_of_map_id {l : List Change} (h : (l.map (·.id)).Nodup) : l.Nodup := by
+  unfold List.Nodup at h ⊢
+  exact List.Pairwise.of_map (fun c => c.id) (fun a b hab e => hab (by rw [e])) h
+
+theorem add_tree_unatt (t0 : T) (batch : List Change) : (add t0 batch).tree.unatt = [] := by
+  unfold add
+  simp only
+  split
+  · rfl
+  · split <;> (try split) <;> rfl
+
+/-- a sequence of additions -/
+def addSeq (t : T) (L : List (List Change)) : T := L.foldl (fun t b => (add t b).tree) t
+
+theorem CausalFor.prefix {t : T} {a b : List Change} (h : CausalFor t (a ++ b)) : CausalFor t a := by
+  intro l1 c l2 hdec
+  exact h l1 c (l2 ++ b) (by rw [hdec]; simp)
+
+/-- **causal arrival, any batching**: additions whose concatenation is causally ordered attach everything -/
+theorem addSeq_causal : ∀ (L : List (List Change)) (t : T), t.unatt = [] → t.root.isSome = true →
+    CausalFor t L.flatten →
+    (addSeq t L).unatt = [] ∧ (addSeq t L).root = t.root ∧
+    (∀ x, t.has x = true → (addSeq t L).has x = true) ∧ (∀ c ∈ L.flatten, (addSeq t L).has c.id = true) ∧
+    (∀ d ∈ (addSeq t L).att, d ∈ t.att ∨ d ∈ L.flatten) ∧
+    ((t.att.map (·.id)).Nodup → ((addSeq t L).att.map (·.id)).Nodup) := by
+  intro L
+  induction L with
+  | nil => intro t hun _ _; exact ⟨hun, rfl, fun _ h => h, by simp, fun d hd => Or.inl hd, fun h => h⟩
+  | cons b L ih =>
+    intro t hun hroot hc
+    simp only [List.flatten_cons] at hc
+    obtain ⟨a1, a2, a3, a4, a5, a6⟩ := addAll_causal b { t with added := [] } hun hroot hc.prefix
+    -- the tree after the first addition
+    have e := add_tree_att t b
+    have hatt : (add t b).tree.att = (addAll { t with added := [] } b).att := by rw [e.1]; rfl
+    have hrt : (add t b).tree.root = t.root := by rw [e.2]; exact a2
+    have hhas : ∀ x, (add t b).tree.has x = (addAll { t with added := [] } b).has x := by
+      intro x; unfold T.has; rw [hatt]
+    have hcaus : CausalFor (add t b).tree L.flatten := by
+      intro l1 d l2 hdec
+      have := hc (b ++ l1) d l2 (by rw [hdec]; simp)
+      constructor
+      · intro p hp
+        rcases this.1 p hp with h | h
+        · left; rw [hhas]; exact a3 p h
+        · rw [List.map_append, List.mem_append] at h
+          rcases h with h | h
+          · obtain ⟨q, hq, hqp⟩ := List.mem_map.mp h
+            left; rw [hhas, ← hqp]; exact a4 q hq
+          · exact Or.inr h
+      · rcases this.2 with h | h
+        · left; rw [hhas]; exact a3 _ h
+        · rw [List.map_append, List.mem_append] at h
+          rcases h with h | h
+          · obtain ⟨q, hq, hqp⟩ := List.mem_map.mp h
+            left; rw [hhas, ← hqp]; exact a4 q hq
+          · exact Or.inr h
+    obtain ⟨i1, i2, i3, i4, i5, i6⟩ := ih (add t b).tree (add_tree_unatt t b) (by rw [hrt]; exact hroot) hcaus
+    show (addSeq (add t b).tree L).unatt = [] ∧ _
+    refine ⟨i1, i2.trans hrt, ?_, ?_, ?_, ?_⟩
+    · intro x hx; apply i3; rw [hhas]; exact a3 x hx
+    · intro c hcm
+      simp only [List.flatten_cons, List.mem_append] at hcm
+      rcases hcm with h | h
+      · apply i3; rw [hhas]; exact a4 c h
+      · exact i4 c h
+    · intro d hd
+      rcases i5 d hd with h | h
+      · rw [hatt] at h
+        rcases a5 d h with h' | h'
+        · exact Or.inl h'
+        · right; simp only [List.flatten_cons, List.mem_append]; exact Or.inl h'
+      · right; simp only [List.flatten_cons, List.mem_append]; exact Or.inr h
+    · intro hnd; apply i6; rw [hatt]; exact a6 hnd
+
+/-- **confluence for causal arrival**: two sequences of additions that deliver the same changes, each in a
+causal order (any batching, any duplication), produce the same attached set and the same presented sequence -/
+theorem addSeq_confluent (t : T) (L1 L2 : List (List Change)) (hun : t.unatt = []) (r : Nat) (hroot : t.root = some r)
+    (hnd : (t.att.map (·.id)).Nodup)
+    (huniq : ∀ c ∈ t.att ++ L1.flatten ++ L2.flatten, ∀ d ∈ t.att ++ L1.flatten ++ L2.flatten, c.id = d.id → c = d)
+    (h1 : CausalFor t L1.flatten) (h2 : CausalFor t L2.flatten)
+    (hsame : ∀ c, c ∈ L1.flatten ↔ c ∈ L2.flatten) :
+    (addSeq t L1).att.Perm (addSeq t L2).att ∧ iter r (addSeq t L1).att = iter r (addSeq t L2).att := by
+  have hr : t.root.isSome = true := by simp [hroot]
+  obtain ⟨_, _, a3, a4, a5, a6⟩ := addSeq_causal L1 t hun hr h1
+  obtain ⟨_, _, b3, b4, b5, b6⟩ := addSeq_causal L2 t hun hr h2
+  have mem1 : ∀ d, d ∈ (addSeq t L1).att ↔ d ∈ t.att ∨ d ∈ L1.flatten := by
+    intro d; constructor
+    · exact a5 d
+    · rintro (h | h)
+      · -- an attached change stays attached (same id, unique ids)
+        have := a3 d.id (has_iff.mpr (List.mem_map.mpr ⟨d, h, rfl⟩))
+        obtain ⟨e, he, hid⟩ := List.mem_map.mp (has_iff.mp this)
+        have hin : e ∈ t.att ++ L1.flatten ++ L2.flatten := by
+          rcases a5 e he with h' | h'
+          · simp [h']
+          · simp [h']
+        have : e = d := huniq e hin d (by simp [h]) hid
+        exact this ▸ he
+      · have := a4 d h
+        obtain ⟨e, he, hid⟩ := List.mem_map.mp (has_iff.mp this)
+        have hin : e ∈ t.att ++ L1.flatten ++ L2.flatten := by
+          rcases a5 e he with h' | h'
+          · simp [h']
+          · simp [h']
+        have : e = d := huniq e hin d (by simp [h]) hid
+        exact this ▸ he
+  have mem2 : ∀ d, d ∈ (addSeq t L2).att ↔ d ∈ t.att ∨ d ∈ L2.flatten := by
+    intro d; constructor
+    · exact b5 d
+    · rintro (h | h)
+      · have := b3 d.id (has_iff.mpr (List.mem_map.mpr ⟨d, h, rfl⟩))
+        obtain ⟨e, he, hid⟩ := List.mem_map.mp (has_iff.mp this)
+        have hin : e ∈ t.att ++ L1.flatten ++ L2.flatten := by
+          rcases b5 e he with h' | h'
+          · simp [h']
+          · simp [h']
+        have : e = d := huniq e hin d (by simp [h]) hid
+        exact this ▸ he
+      · have := b4 d h
+        obtain ⟨e, he, hid⟩ := List.mem_map.mp (has_iff.mp this)
+        have hin : e ∈ t.att ++ L1.flatten ++ L2.flatten := by
+          rcases b5 e he with h' | h'
+          · simp [h']
+          · simp [h']
+        have : e = d := huniq e hin d (by simp [h]) hid
+        exact this ▸ he
+  have hperm : (addSeq t L1).att.Perm (addSeq t L2).att := by
+    rw [List.perm_ext_iff_of_nodup (nodup_of_map_id (a6 hnd)) (nodup_of_map_id (b6 hnd))]
+    intro d; rw [mem1, mem2, hsame]
+  exact ⟨hperm, iter_perm hperm r⟩
+
+
 end AnySync.Tree
